@@ -1,6 +1,7 @@
 (* Model/Store.v — pkg/store/store.go, pkg/store/keys.go, pkg/store/kv.go (DefaultStore).
    Concrete machine: the key/value image with the code's key builders; every operation
    returns the ordered list of atomic writes it performs and its result.
+   Histories: operations, reopen, a crash inside an operation, a transient write fault inside an operation.
    Abstract machine: a height-indexed map (the specification of C14).
    Definitions only; proofs are in Proofs/StoreProofs.v. *)
 From Coq Require Import String Ascii NArith List Bool.
@@ -123,13 +124,26 @@ Definition step (m : img) (o : op) : list wr * out :=
 Inductive item :=
 | IOp (o : op)
 | IReopen                       (* close and reopen the database: DefaultStore has no volatile state *)
-| ICrash (o : op) (k : nat).    (* the process dies after [k] atomic writes of [o]; its result is lost *)
+| ICrash (o : op) (k : nat)     (* the process dies after [k] atomic writes of [o]; its result is lost *)
+| IFault (o : op) (k : nat).    (* a transient write FAULT: atomic write attempt number [k] (from 0) of [o] returns an
+                                   error and does not reach the database; the store stays open and goes on being used *)
+
+(* What an operation does when its write attempt number [k] fails: every method of DefaultStore returns at its first
+   failed datastore write with that error (store.go SetHeight: `return s.db.Put(...)`; SaveBlockData: `if err :=
+   batch.Commit(ctx); err != nil { return fmt.Errorf(...) }`; UpdateState: `return s.db.Put(...)`; SetMetadata: `if err
+   != nil { return fmt.Errorf(...) }`), DefaultStore keeps nothing in memory, so: the writes before attempt [k] have
+   happened, attempt [k] and everything after it have not, the result is an error.  An operation that makes fewer
+   than [k+1] write attempts never meets the fault and runs as usual. *)
+Definition fault_step (m : img) (o : op) (k : nat) : list wr * out :=
+  let '(ws, r) := step m o in
+  if Nat.ltb k (List.length ws) then (firstn k ws, RErr) else (ws, r).
 
 Definition istep (m : img) (i : item) : img * option out :=
   match i with
   | IOp o => let '(ws, r) := step m o in (apply_writes m ws, Some r)
   | IReopen => (m, None)
   | ICrash o k => (crash_after k m (fst (step m o)), None)
+  | IFault o k => let '(ws, r) := fault_step m o k in (apply_writes m ws, Some r)
   end.
 
 Fixpoint run (m : img) (h : list item) : img * list (option out) :=
@@ -154,8 +168,20 @@ Fixpoint shapes (m : img) (h : list item) : list (list wshape) :=
                 | IOp o => fst (step m o)
                 | IReopen => []
                 | ICrash o k => firstn k (fst (step m o))
+                | IFault o k => fst (fault_step m o k)
                 end in
       map write_shape ws ++ shapes (fst (istep m i)) r
+  end.
+
+(* the write attempts that were made to fail, in order (compared with what the fault-injecting datastore refused) *)
+Fixpoint fault_shapes (m : img) (h : list item) : list (list wshape) :=
+  match h with
+  | [] => []
+  | i :: r =>
+      (match i with
+       | IFault o k => match nth_error (fst (step m o)) k with Some w => [write_shape w] | None => [] end
+       | _ => []
+       end) ++ fault_shapes (fst (istep m i)) r
   end.
 
 (* ---- the specification: a height-indexed map ------------------------------------------ *)
@@ -211,8 +237,22 @@ Definition a_step (a : spec) (o : op) : spec * out :=
   | OGetMeta k => (a, match a_meta_get (a_meta a) k with Some v => RBytes v | None => RErr end)
   end.
 
+(* the number of atomic writes the specification charges an operation with *)
+Definition a_writes (a : spec) (o : op) : nat :=
+  match o with
+  | OSetHeight n => if (n <=? a_height a)%N then 0 else 1
+  | OSave _ _ _ | OUpdState _ | OSetMeta _ _ => 1
+  | _ => 0
+  end.
+
+(* a write fault for the specification: an operation whose write attempt [k] exists FAILS - it returns an error and
+   the map is exactly what it was (nothing of a failed operation is ever visible, now or after a reopen); otherwise
+   the operation is an ordinary one *)
+Definition a_fault_step (a : spec) (o : op) (k : nat) : spec * out :=
+  if Nat.ltb k (a_writes a o) then (a, RErr) else a_step a o.
+
 (* what a history means for the specification: a crash is "happened entirely or not at all",
-   resolved by a boolean oracle per crash item *)
+   resolved by a boolean oracle per crash item; a write fault is deterministic (a_fault_step) *)
 Fixpoint a_run (a : spec) (h : list item) (happened : list bool) : spec * list (option out) :=
   match h with
   | [] => (a, [])
@@ -224,12 +264,14 @@ Fixpoint a_run (a : spec) (h : list item) (happened : list bool) : spec * list (
                    let '(a'', os) := a_run a' r hs in (a'', None :: os)
       | [] => let '(a'', os) := a_run a r [] in (a'', None :: os)
       end
+  | IFault o k :: r =>
+      let '(a', x) := a_fault_step a o k in let '(a'', os) := a_run a' r happened in (a'', Some x :: os)
   end.
 
 (* well-formed histories: saved headers carry their own height, equal hashes mean equal heights
    (SHA-256 over a header that contains the height), metadata keys are clean *)
 Definition op_saves (o : op) : list hdr := match o with OSave h _ _ => [h] | _ => [] end.
-Definition item_op (i : item) : option op := match i with IOp o => Some o | ICrash o _ => Some o | IReopen => None end.
+Definition item_op (i : item) : option op := match i with IOp o => Some o | ICrash o _ => Some o | IFault o _ => Some o | IReopen => None end.
 Definition saves (h : list item) : list hdr :=
   flat_map (fun i => match item_op i with Some o => op_saves o | None => [] end) h.
 Definition hash_consistentb (l : list hdr) : bool :=
